@@ -10,6 +10,8 @@ EXPLANATION = (
     "(R-C12-siblings) the copies that are identical on the pinned tree "
     "(matches x3, has_wildcards x3, valid_topic x2 and valid_filter x2 in rumqttc) stay signature-equal (constants, comparison operators, callees, switch shapes), identity reported; "
     "(R-C12-dollar) each matches() rejects a topic whose first character is '$' before any level comparison. "
+    "(R-C12-levels) in each matches(): `false` for an exhausted topic only behind a test of the filter level against \"#\" (a/# matches a); `true` after the last filter level only behind a poll of the topic iterator; "
+    "every loop iteration consumes one topic level and continues only via `level == \"+\"` or a comparison of the two levels. "
     "NOT decided: conformance of matching with the MQTT rules for all string pairs; agreement of the differently written rumqttd valid_filter with the client copies.")
 
 ASSUMPTIONS = [
@@ -86,6 +88,7 @@ def run(ctx):
     # ---- R-C12-dollar
     for label, body, crate in copies["matches"]:
         check_dollar(ctx, label, body)
+        ctx.guarded("R-C12-levels", check_levels, ctx, ctx.progs[crate], label, body)
 
 
 def check_dollar(ctx, label, body):
@@ -168,3 +171,129 @@ LEVEL_TEXT = ("Decides, for every path of the 12 functions (matches/valid_filter
               "constants/operators/callees, and that the '$' rejection dominates level matching. It does not decide that the answers follow the MQTT rules for all strings "
               "(value-level; not reachable by a sound static rule here).")
 LEVEL_NOTE = "Trusted: rustc MIR construction and callee resolution; rules/ext_api.json (std string APIs audited total); rules/panic_audit.json (2 signed unwraps on str::split)."
+
+
+# ------------------------------------------------------------------------------------------
+# R-C12-levels: level-by-level structure of matches()
+
+def _str_consts(prog, body, op):
+    """string literals an operand can denote (direct `const "x"` or a reference to a promoted literal)"""
+    import json
+    out = set()
+    k = op_const(op)
+    cands = [Src("const", v=k.get("v"), s=k.get("s"), promoted=k.get("promoted"), fn=k.get("fn"))] if k is not None else flatten_src(provenance(body, op))
+    for s in cands:
+        if s.kind != "const":
+            continue
+        if s.promoted is not None:
+            pb = prog.promoted.get((body.id, s.promoted))
+            if pb:
+                for m in re.finditer(r'const \\"([^"\\]*)\\"|"s": "\\"([^"\\]*)\\""', json.dumps(pb.raw["blocks"])):
+                    out.add(m.group(1) if m.group(1) is not None else m.group(2))
+        elif s.s:
+            m = re.match(r'^(?:const )?"(.*)"$', s.s)
+            if m:
+                out.add(m.group(1))
+    return out
+
+
+def check_levels(ctx, prog, label, body):
+    """Necessary structure of level-wise matching, as path rules over one copy of matches():
+    (L1) a `return false` reached because the topic ran out of levels lies behind a test of the current filter
+         level against "#"  (a/# matches a);
+    (L2) after the filter's levels are exhausted, `return true` lies behind a poll of the topic iterator
+         (a does not match a/b);
+    (L3) every way round the per-level loop polls the topic iterator (one topic level per filter level);
+    (L4) every way round the loop that is not the true edge of `level == "+"` compares the filter level with
+         the topic level."""
+    rule = "R-C12-levels"
+    live = reachable(body, (0,))
+    role = {}     # bb of an Iterator::next call -> "topic" | "filter"
+    for bb, t in body.calls():
+        if bb not in live or body.is_cleanup(bb) or not re.search(r"Iterator>::next$|Iterator::next$", callee_path(t)):
+            continue
+        for s in flatten_src(provenance(body, t["args"][0], through_calls=[r"Iterator::by_ref$", r"IntoIterator>::into_iter$"])):
+            if s.kind == "call" and re.search(r"str>::split$|::split$", s.path):
+                ps = flatten_src(provenance(body, s.term["args"][0]))
+                if ps and all(p.kind == "param" for p in ps):
+                    role[bb] = "topic" if ps[0].l == 1 else "filter"
+    tnext = [bb for bb, r in role.items() if r == "topic"]
+    fnext = [bb for bb, r in role.items() if r == "filter"]
+    if not tnext or len(fnext) != 1:
+        ctx.anchor_missing(rule, "%s: level iterators not recognised (topic next: %d, filter next: %d)" % (label, len(tnext), len(fnext)))
+        return
+
+    def edges(bb):
+        """(Some target, None target) of the discriminant switch on the result of the next() call in bb"""
+        dest = body.blocks[bb]["t"]["dest"]["l"]
+        for sw in discr_switches(body, r"Option"):
+            if sw[4] and sw[4]["l"] == dest and not [p for p in (sw[4].get("p") or []) if p != "*"]:
+                return variant_target(sw, "Some"), variant_target(sw, "None")
+        return None, None
+    f_some, f_none = edges(fnext[0])
+    t_none = [edges(bb)[1] for bb in tnext]
+    if f_some is None or f_none is None:
+        ctx.anchor_missing(rule, "%s: match on the filter iterator's next() not found" % label)
+        return
+    falses, trues = [], []
+    for bi in live:
+        for st in body.blocks[bi]["s"]:
+            if "lhs" in st and st["lhs"]["l"] == 0 and not st["lhs"].get("p") and st["rv"]["k"] == "use":
+                k = op_const(st["rv"]["a"])
+                if k is not None and k.get("v") in (0, 1):
+                    (trues if k["v"] == 1 else falses).append(bi)
+    # comparisons
+    hash_tests, plus_true_edges, level_cmps = [], [], []
+    for bb, t in body.calls():
+        if bb not in live or body.is_cleanup(bb) or not re.search(r"PartialEq.*::(eq|ne)$", callee_path(t)) or len(t["args"]) != 2:
+            continue
+        lits = [_str_consts(prog, body, a) for a in t["args"]]
+        nonconst = [i for i in (0, 1) if not lits[i]]
+        from_filter = False
+        for i in nonconst:
+            for s in flatten_src(provenance(body, t["args"][i])):
+                if s.kind == "call" and s.term is body.blocks[fnext[0]]["t"]:
+                    from_filter = True
+        if not from_filter:
+            continue
+        lit = lits[0] | lits[1]
+        if "#" in lit:
+            hash_tests.append(bb)
+        elif "+" in lit:
+            sw = t.get("t")
+            if sw is not None and body.blocks[sw]["t"]["k"] == "switch":
+                stt = body.blocks[sw]["t"]
+                zero = [x for v, x in stt["targets"] if v == 0]
+                is_eq = callee_path(t).endswith("eq")
+                plus_true_edges.append((sw, stt["otherwise"] if is_eq else (zero[0] if zero else None)))
+        elif len(nonconst) == 2:
+            level_cmps.append(bb)
+    # L1
+    bad = []
+    for tn in t_none:
+        if tn is None:
+            continue
+        r_ = reachable(body, (f_some,), avoid_blocks=tuple(hash_tests))
+        if tn in r_ and (reachable(body, (tn,), avoid_blocks=tuple(hash_tests) + (fnext[0],)) & set(falses)):
+            bad.append(tn)
+    if bad:
+        ctx.violation(rule, label, "parent level of a trailing #",
+                      "matches(): a path returns false because the topic has no more levels without ever testing the current filter level against \"#\": filter a/# no longer matches topic a (MQTT-4.7.1-2)",
+                      site=body.loc(body.blocks[bad[0]]["t"].get("sp")))
+    else:
+        ctx.ok(rule, label, "L1: topic-exhausted `false` only behind a test of the filter level against \"#\"", site=body.fn_loc())
+    # L2
+    if reachable(body, (f_none,), avoid_blocks=tuple(tnext) + (fnext[0],)) & set(trues):
+        ctx.violation(rule, label, "topic longer than filter", "matches(): after the last filter level `true` is returned without polling the topic iterator: a/b matches filter a", site=body.fn_loc())
+    else:
+        ctx.ok(rule, label, "L2: filter exhausted: `true` only behind topics.next()", site=body.fn_loc())
+    # L3
+    if fnext[0] in reachable(body, (f_some,), avoid_blocks=tuple(tnext)):
+        ctx.violation(rule, label, "level not consumed", "matches(): the per-level loop can continue without advancing the topic iterator", site=body.fn_loc())
+    else:
+        ctx.ok(rule, label, "L3: every loop iteration polls the topic iterator", site=body.fn_loc())
+    # L4
+    if fnext[0] in reachable(body, (f_some,), avoid_blocks=tuple(level_cmps), avoid_edges=[e for e in plus_true_edges if e[1] is not None]):
+        ctx.violation(rule, label, "level not compared", "matches(): the loop can continue past a filter level that is neither \"+\" nor compared with the topic level", site=body.fn_loc())
+    else:
+        ctx.ok(rule, label, "L4: a loop iteration continues only via `level == \"+\"` or a comparison of filter level and topic level", site=body.fn_loc())
